@@ -495,10 +495,22 @@ fn bits_until_alignment(
         return Ok(0);
     }
 
-    let excess_bits_bigint = cur_address_in_bits.checked_mod(
+    let alignment_bigint = util::BigInt::new(alignment, None);
+
+    let mut excess_bits_bigint = cur_address_in_bits.checked_mod(
         report,
         span,
-        &util::BigInt::new(alignment, None))?;
+        &alignment_bigint)?;
+
+    // The remainder of a negative address is negative:
+    // count the excess from the aligned address below
+    if excess_bits_bigint.sign() == -1
+    {
+        excess_bits_bigint = excess_bits_bigint.checked_add(
+            report,
+            span,
+            &alignment_bigint)?;
+    }
 
     let excess_bits = excess_bits_bigint.checked_into::<usize>(
         report,
